@@ -1,7 +1,7 @@
 SPECIFICATION Spec
 CONSTANTS
   Params <- MCParams2
-  Ds = {0, 4, 8}
+  Ds = {4, 8}
   Scores = {0, 1}
   MaxGen = 3
 INVARIANT StepsAreEnvSteps
